@@ -11,8 +11,10 @@
   to itself (`fitLoop_outOfFuel_exact`, `fitLoop_terminates`, `replaceStep_not_outOfFuel`); the
   failure classes of `replaceStep` (`replaceStep_failures`); `replaceStep` *returns* for every
   deletion (`delete_total`, `deleteRange_total`) and for every closed slice of leaf / text nodes
-  (`insertInline_total`) on a valid document.  For other slices that the run does not raise is not
-  proved (`fit_no_internal_partial` says what is); every other Fitter theorem assumes `.ok`.
+  (`insertInline_total`) on a valid document, and — last section, `fit_no_raise` — for **every** slice, of any
+  open depths, that satisfies two static decidable guards (`Slice.openPrefixOk`: the two raise sites of
+  `place_nodes`; `Slice.stableOk`: `open_start` never goes stale), with kernel-checked examples that the model
+  (and the real code) raises where a guard fails.
   Helpers: Proofs/Respects.lean, RangeOps.lean, Fitter.lean, FitterText.lean, FitRaises.lean,
   FitMeasure.lean, FitScan.lean, FitTerm.lean, FitLoop.lean, FitTotal.lean, FitDelete.lean, FitInline.lean,
   FitInv.lean (well-formedness of the emitted step, last section but one), FillOrder.lean.
@@ -39,6 +41,9 @@ import Proofs.InsertAtValid
 import Proofs.DeleteFlat
 import Proofs.FitOpen
 import Proofs.FitNoRaise
+import Proofs.FitRaiseFree
+import Proofs.FitStable
+import Proofs.FitCutGuard
 import Proofs.FitNorm
 import Proofs.JoinSuccess
 import Proofs.Placement
@@ -897,7 +902,8 @@ example :
 
 /-! ### no internal outcome, the general corollary (partial)
 
-FULL STATEMENTS AIMED AT (not proved in general):
+(Proved since, under static guards on the slice: `fit_no_raise`, last section of this file.)
+FULL STATEMENTS AIMED AT when this section was written:
 
 `fit_no_internal` : `detB S → C01.Valid S doc → f ≤ t ≤ size doc → sl.wf → sl.noPartialNode S →
   (slice nodes schema-valid) → replaceStep S doc f t sl ≠ .error .raises ∧ ≠ .error .negInsert`
@@ -1234,7 +1240,9 @@ PROVED (this section):
   `fit_emits_wf` and `leafOkB`, `textStableC`, `closableB`: no hypothesis on the Fitter's state (Proofs/FitOpen.lean:
   `VInv` is invariant under `place_nodes` for open slices as well, and the unplaced slice stays loosely valid, `UInv`).
 
-FULL STATEMENT STILL AIMED AT (not proved):
+FULL STATEMENT AIMED AT when this section was written (proved since — with the guards `openPrefixOk` and `stableOk` in
+the place of `noPartialNode`, which does not cover every suffix of the children nor the stale `open_start` — as
+`fit_no_raise`, last section of this file):
 `fit_no_raise` : … `→ sl.noPartialNode S → replaceStep S doc f t sl ≠ .error .raises`, and with
   `fitLoop_terminates` the total `replaceStep_total`.  The raise sites of the loop: `content_match_at(child_count)` on the
   node `place_nodes` re-opens (the partial-node finding), `fill_before` answering `None` inside `close_node_start`, and
@@ -2609,5 +2617,321 @@ theorem emitted_applies_of_result (S : Schema) (ty0 : TypeId) (a0 : Attrs) (m0 :
     (hs : sliceKids K F T₀ = .ok sl) (hL : LeftRel K' K F) (hR : RightRel S K' T K T₀) :
     ∃ doc', S.apply (.replace F T sl false) (.elem ty0 a0 m0 K') = .ok doc' :=
   replace_applies_of_result S ty0 a0 m0 K K' F T₀ T sl hvc hv hn hn' hft ht hft' hs hL hR
+
+/-! ## The Fitter never raises on opened slices (`fit_no_raise`)
+
+Inside the loop of `Fitter.fit` the code raises at three places only (`fit_no_raise_partial`, `fit_raise_sites` above, and
+the walk along a stale `open_start`); PM/FitRaiseGuard.lean names what each needs, as decidable predicates:
+
+* **start site** `close_node_start`: `node.type.content_match.fill_before(frag)` must not be `None` for the nodes of the open
+  start spine (`Schema.startSiteOk`; `assert fill_before_frag is not None` otherwise);
+* **end site** `place_nodes` pushing the open end: the children of the nodes of the open end spine must be a matchable
+  beginning of their content expression (`Schema.endSiteOk`; `content_match_at(child_count)` raises ValueError otherwise — the
+  finding C11-fitter-partial-node);
+* the **unplaced slice stays `Slice.wf`**: `place_nodes` keeps `open_start` when it stops short of the end of a fragment above
+  the open level, and `open_more` raises `open_end` past a leaf that follows a non-leaf sibling; the next iteration then walks
+  `content_at(…).first_child.content` through a node that is not there (AttributeError / AssertionError; random schemas).
+
+`Slice.sitesOk` is the condition **in one state** (`fit_step_returns`; the end site is exact: `endSite_exact`, the start site
+at its innermost level: `startSite_exact`).  The depths to which the slice is open and the children present change over the
+run: `open_more` can open any node once what precedes it is placed or dropped, `drop_node` / `place_nodes` take children away
+from the front of a node that is open at its start, the end spine moves down the last-child chain when the only node left is
+opened.  So the **static** guard on the request slice asks the condition of every *suffix* of a child list:
+`Slice.openPrefixOk` = `fillableKids` (every non-leaf node, every suffix of its children can be filled in front of) ∧
+`endChainOk` (along the last-child chain every suffix of the children is a matchable beginning).  It is kept by everything the
+loop does to the unplaced content and implies `sitesOk` whatever the depths (`openPrefixOk_invariant`).  Which slices satisfy
+it: every slice cut from a valid document whose non-leaf nodes have content the automaton accepts from the start state
+whatever is cut off in front (`x*`, `x+`, `(x | y)*`, `title? block*`: `openPrefixOk_of_cut`) — in the bundled family the slices that do not put a `list_item(paragraph, list…)`, a
+`block(a, b)` (content `a b`), … on the last-child chain; the tie (op `fitRaise`, harness/rangeplan.py) counts them: the
+hypotheses of `fit_no_raise` hold on about nine requests in ten, among them some 3000 slices per run that are open and go
+through the Fitter.  For the third place: `Slice.stableOk` (static; `stableOk_keeps_wf`) or the run hypothesis `unplacedWfWhile`
+(which, unlike `unplacedWfRun`, presupposes nothing about the run going through). -/
+
+/-- **`fit_step_returns`** — one iteration of the loop of `fit` returns in every state that is in step, whose unplaced slice
+    is well-formed and satisfies the two site conditions for its open depths (`Slice.sitesOk`) -/
+theorem fit_step_returns (S : Schema) (hdet : detB S = true) (hfill : S.fillersOKB = true) (hwrap : S.wrapOKB = true)
+    (hlab : S.labelsOKB = true) (hts : textStableC S = true) (hcl : S.closableB = true) (st : FitState)
+    (hin : st.inStepB = true) (hwf : st.unplaced.wf = true) (hsites : st.unplaced.sitesOk S = true) :
+    ∃ st', fitStep S st = .ok st' := by
+  simp only [FitState.inStepB, Bool.and_eq_true, Bool.not_eq_eq_eq_not, Bool.not_true, List.all_eq_true,
+    decide_eq_true_eq] at hin
+  obtain ⟨⟨hne, hall⟩, hsp⟩ := hin
+  have inv : InStep st := by
+    refine ⟨fun it hit => Option.isSome_iff_exists.1 (hall it hit), ?_, spineR_rspineOK _ _ hsp⟩
+    intro h0
+    rw [h0] at hne
+    simp at hne
+  exact fitStep_total S (detS_of_detB S hdet) (fillersOK_of_B S hfill) (wrapOK_of_B S hwrap) (labelsOK_of_B S hlab)
+    (closable_of_B S hcl) (textStableP_of_C S hts) st inv hwf hsites
+
+/-- **the end site is exact**: within the last-child chain, pushing the open end returns iff every node on it has children
+    that are a matchable beginning of its content (`content_match_at(child_count)` does not raise) -/
+theorem endSite_exact (S : Schema) (n : Nat) (cur : List Node) (fr : List FItem) (h : n ≤ spineR cur) :
+    (∃ fr', pushOpenEnd S n cur fr = .ok fr') ↔ S.endSiteOk cur n = true :=
+  pushOpenEnd_ok_iff S n cur fr h
+
+/-- **the start site is exact at its innermost level**: `close_node_start(node, 1, …)` returns iff
+    `fill_before(node.content)` is not `None` (schema guards as above, the node's type one of the schema) -/
+theorem startSite_exact (S : Schema) (hdet : detB S = true) (hfill : S.fillersOKB = true) (hts : textStableC S = true)
+    (hcl : S.closableB = true) (t : TypeId) (a : Attrs) (m : Marks) (kids : List Node) (oe : Int)
+    (ht : t < S.nodes.size) :
+    (∃ r, closeNodeStart S 1 (.elem t a m kids) oe = .ok r) ↔
+      (fillBeforeTypes S (S.dfa t) 0 (S.types kids) false).isSome = true := by
+  constructor
+  · intro ⟨r, h⟩
+    unfold closeNodeStart at h
+    obtain ⟨frag, hfrag, h⟩ := FM.bind_ok h
+    have : frag = kids := (pure_ok hfrag).symm
+    subst this
+    obtain ⟨fill, hf1, h⟩ := FM.bind_ok h
+    obtain ⟨fill', hf2, _⟩ := FM.bind_ok h
+    have e := liftRaise_ok hf2
+    subst e
+    have := fillBeforeNodes_types S _ _ _ _ fill' (liftRaise_ok hf1)
+    simp only [Schema.tyOf, Node.tyOr] at this
+    rw [this]; rfl
+  · intro h
+    exact closeNodeStart_total S (detS_of_detB S hdet) (fillersOK_of_B S hfill) (closable_of_B S hcl)
+      (textStableP_of_C S hts) 1 _ oe (by simp) (by simp [Schema.startSiteOk, ht, h])
+
+/-- **the static guard is an invariant and implies the site conditions**: `openPrefixOk` of the unplaced content is kept by
+    every iteration of the loop, and a slice that satisfies it satisfies `sitesOk` whatever its open depths -/
+theorem openPrefixOk_invariant (S : Schema) :
+    (∀ (c : List Node) (os oe : Nat), (⟨c, 0, 0⟩ : Slice).openPrefixOk S = true → (⟨c, os, oe⟩ : Slice).sitesOk S = true) ∧
+    (∀ (st st' : FitState), fitStep S st = .ok st' → st.unplaced.openPrefixOk S = true →
+      st'.unplaced.openPrefixOk S = true) := by
+  constructor
+  · intro c os oe h
+    simp only [Slice.openPrefixOk, Bool.and_eq_true] at h
+    exact sitesOk_of_openPrefix S ⟨c, os, oe⟩ h.1 h.2
+  · intro st st' h hg
+    simp only [Slice.openPrefixOk, Bool.and_eq_true] at hg ⊢
+    exact fitStep_content (openPrefix_stable S) S st st' h hg
+
+/-- **`stableOk_keeps_wf`** — the static guard for the third place: a well-formed unplaced slice whose content is stable
+    (`Slice.stableOk`: in every fragment each node is followed by one that fits wherever the first does, no leaf directly
+    behind a non-leaf node, no empty text) is well-formed after every iteration of the loop that returns, stays stable, and so
+    satisfies the run hypothesis `unplacedWfWhile`; it also satisfies the termination guard -/
+theorem stableOk_keeps_wf (S : Schema) :
+    (∀ (st st' : FitState), st.unplaced.wf = true → st.unplaced.stableOk S = true → fitStep S st = .ok st' →
+      st'.unplaced.wf = true ∧ st'.unplaced.stableOk S = true) ∧
+    (∀ (doc : Node) (f t : Nat) (sl : Slice), sl.wf = true → sl.stableOk S = true →
+      unplacedWfWhile S doc f t sl = true ∧ sl.termGuard = true) :=
+  ⟨fun st st' hwf hst h => ⟨fitStep_wf S st st' hwf hst h, fitStep_content (stable_dropStable S) S st st' h hst⟩,
+   fun doc f t sl hwf hst => ⟨unplacedWfWhile_of_stable S doc f t sl hwf hst, termGuard_of_stable S sl hwf hst⟩⟩
+
+/-- **`fit_no_raise_while`** — `replace_step` returns (`None` or a step: no exception, the loop ends, no negative `insert`)
+    for every request on a valid document whose slice satisfies the termination guard and the static guard `openPrefixOk`
+    and whose unplaced rest stays well-formed for as long as the Fitter runs (`unplacedWfWhile`, decidable, evaluated by the
+    driver; true on all but a few per thousand requests).  Schema guards: `detB`, `fillersOKB`, `wrapOKB`, `labelsOKB`,
+    `textStableC`, `closableB`. -/
+theorem fit_no_raise_while (S : Schema) (hdet : detB S = true) (hfill : S.fillersOKB = true) (hwrap : S.wrapOKB = true)
+    (hlab : S.labelsOKB = true) (hts : textStableC S = true) (hcl : S.closableB = true) (doc : Node) (f t : Nat)
+    (sl : Slice) (hv : C01.Valid S doc) (hattrs : S.nodeAttrsOK doc = true)
+    (htop : S.isTextblockO (S.tyOf doc) = false) (hft : f ≤ t) (ht : t ≤ fsize doc.kids)
+    (hterm : sl.termGuard = true) (hg : sl.openPrefixOk S = true) (hrun : unplacedWfWhile S doc f t sl = true) :
+    ∃ r, replaceStep S doc f t sl = .ok r :=
+  replaceStep_total_of_guards S (detS_of_detB S hdet) (fillersOK_of_B S hfill) (wrapOK_of_B S hwrap)
+    (labelsOK_of_B S hlab) (closable_of_B S hcl) (textStableP_of_C S hts) doc f t sl hv hattrs htop (by omega) ht hterm hg hrun
+
+/-- **`fit_no_raise`** — the same with static guards only: for every range `f ≤ t` of a valid document (top node not a
+    textblock, element types creatable) and **every slice, of any open depths**, that is well-formed (`Slice.wf`) and
+    satisfies `Slice.openPrefixOk` (the two raise sites of `place_nodes`) and `Slice.stableOk` (the unplaced slice stays
+    well-formed; it implies the termination guard), `replace_step` returns: the Fitter does not raise, its loop ends, and
+    the emitted step has a non-negative `insert`.  What it returns is then well-formed, valid and respects the request:
+    `fit_no_raise_emits` below. -/
+theorem fit_no_raise (S : Schema) (hdet : detB S = true) (hfill : S.fillersOKB = true) (hwrap : S.wrapOKB = true)
+    (hlab : S.labelsOKB = true) (hts : textStableC S = true) (hcl : S.closableB = true) (doc : Node) (f t : Nat)
+    (sl : Slice) (hv : C01.Valid S doc) (hattrs : S.nodeAttrsOK doc = true)
+    (htop : S.isTextblockO (S.tyOf doc) = false) (hft : f ≤ t) (ht : t ≤ fsize doc.kids)
+    (hwf : sl.wf = true) (hg : sl.openPrefixOk S = true) (hst : sl.stableOk S = true) :
+    ∃ r, replaceStep S doc f t sl = .ok r :=
+  fit_no_raise_while S hdet hfill hwrap hlab hts hcl doc f t sl hv hattrs htop hft ht
+    (termGuard_of_stable S sl hwf hst) hg (unplacedWfWhile_of_stable S doc f t sl hwf hst)
+
+/-- **`fit_raises_only_at_sites`** — the converse direction, for every request on a valid document: when `replace_step` raises,
+    the run of the Fitter reaches a state, with something left to place, in which the unplaced slice is not well-formed or
+    does not satisfy a site condition for its open depths — there are no other places where it raises.  Stated with
+    reachability (`FitReach`) and with the evaluator `requestBadState` (PM/FitRaiseGuard.lean: the first such state of the run,
+    as the driver reports it for every request on which the real code raised — op `fitRaise`, counter "first failing
+    condition"). -/
+theorem fit_raises_only_at_sites (S : Schema) (hdet : detB S = true) (hfill : S.fillersOKB = true) (hwrap : S.wrapOKB = true)
+    (hlab : S.labelsOKB = true) (hts : textStableC S = true) (hcl : S.closableB = true) (doc : Node) (f t : Nat)
+    (sl : Slice) (hv : C01.Valid S doc) (hattrs : S.nodeAttrsOK doc = true)
+    (htop : S.isTextblockO (S.tyOf doc) = false) (hft : f ≤ t) (ht : t ≤ fsize doc.kids)
+    (h : replaceStep S doc f t sl = .error .raises) :
+    (∃ rf st0 st', doc.resolve f = some rf ∧ fitInit S rf sl = .ok st0 ∧ FitReach S st0 st' ∧
+      (st'.unplaced.size == 0) = false ∧ (st'.unplaced.wf = false ∨ st'.unplaced.sitesOk S = false)) ∧
+    (∃ w a b, requestBadState S doc f t sl = some (w, a, b) ∧ (w && a && b) = false) :=
+  ⟨replaceStep_raises_reach S (detS_of_detB S hdet) (fillersOK_of_B S hfill) (wrapOK_of_B S hwrap) (labelsOK_of_B S hlab)
+      (closable_of_B S hcl) (textStableP_of_C S hts) doc f t sl hv hattrs htop (by omega) ht h,
+   replaceStep_raises_bad S (detS_of_detB S hdet) (fillersOK_of_B S hfill) (wrapOK_of_B S hwrap) (labelsOK_of_B S hlab)
+      (closable_of_B S hcl) (textStableP_of_C S hts) doc f t sl hv hattrs htop (by omega) ht h⟩
+
+/-- **`openPrefixOk_of_cut`** — which ordinary slices satisfy the guard: **every slice cut from a valid document**
+    (`src.slice a b`, any open depths), the document in normal form (no empty text nodes), provided its non-leaf nodes have
+    *suffix-closed* content (`Schema.homogKids`; `Schema.suffixClosedB`: every edge of every state of the type's automaton is an
+    edge of the start state with the same target — `x*`, `x+`, `(x | y)*`, `title? block*`; not `paragraph block*`, `a b`).
+    `Fragment.cut` returns a contiguous run of the children with the two outer ones cut themselves
+    (`fcutLoop_types_infix`), so the children of every node of the slice are by type an infix of an accepted sequence, and
+    with suffix-closed content every suffix of an infix is matchable from the start state (Proofs/FitCutGuard.lean). -/
+theorem openPrefixOk_of_cut (S : Schema) (src : Node) (a b : Nat) (sl : Slice) (hsrc : C01.Valid S src)
+    (hn : fnormKids src.kids = true) (hh : S.homogKids src.kids = true) (hcut : src.slice a b = .ok sl) :
+    sl.openPrefixOk S = true :=
+  slice_openPrefixOk S src a b sl hsrc hn hh hcut
+
+/-- … in particular, in a schema all of whose node types have suffix-closed content (`Schema.homogSchemaB`: the
+    bundled `basic` schema), **every** slice cut from a valid document in normal form satisfies the guard -/
+theorem openPrefixOk_of_cut_homogSchema (S : Schema) (hS : S.homogSchemaB = true) (src : Node) (a b : Nat) (sl : Slice)
+    (hsrc : C01.Valid S src) (hn : fnormKids src.kids = true) (hcut : src.slice a b = .ok sl) :
+    sl.openPrefixOk S = true :=
+  slice_openPrefixOk S src a b sl hsrc hn (homogKids_of_schema S hS _ (checkNode_kids hsrc)) hcut
+
+/-- **`fit_no_raise_cut`** — the no-raise theorem for the slices the property quantifies over, in a schema with suffix-closed
+    content: for every slice cut from a valid document in normal form that is stable (`Slice.stableOk`), `replace_step`
+    returns on every range of a valid document -/
+theorem fit_no_raise_cut (S : Schema) (hdet : detB S = true) (hfill : S.fillersOKB = true) (hwrap : S.wrapOKB = true)
+    (hlab : S.labelsOKB = true) (hts : textStableC S = true) (hcl : S.closableB = true) (hS : S.homogSchemaB = true)
+    (doc : Node) (f t : Nat) (src : Node) (a b : Nat) (sl : Slice) (hsrc : C01.Valid S src)
+    (hn : fnormKids src.kids = true) (hcut : src.slice a b = .ok sl) (hst : sl.stableOk S = true)
+    (hv : C01.Valid S doc) (hattrs : S.nodeAttrsOK doc = true) (htop : S.isTextblockO (S.tyOf doc) = false)
+    (hft : f ≤ t) (ht : t ≤ fsize doc.kids) :
+    ∃ r, replaceStep S doc f t sl = .ok r :=
+  fit_no_raise S hdet hfill hwrap hlab hts hcl doc f t sl hv hattrs htop hft ht (sliceKids_wf _ _ _ _ hcut)
+    (openPrefixOk_of_cut_homogSchema S hS src a b sl hsrc hn hcut) hst
+
+/-- **the guard is false on the finding's input, and the model raises there** (C11-fitter-partial-node): schema `block: "a b"`,
+    `doc(block(a("xy"), b("zw")))`, the slice `<block(a("y"), b("z"))>(2,2)` (cut with the parents kept) inserted at
+    position 6.  Every other hypothesis of `fit_no_raise` holds — schema guards, valid document, `stableOk`, `Slice.wf` (both
+    slices of this run are well-formed: the `example` below; `spineL` / `spineR` are not kernel-evaluable), even `sitesOk`
+    for the slice as it stands — but `endChainOk` is false: `[b]`, what is left of the block's children once
+    `a("y")` has been taken apart, is not a matchable beginning of `a b`.  After one iteration (`"y"` placed into the `a` of
+    the document, `a` dropped) the unplaced slice is `<block(b("z"))>(1,2)`, `sitesOk` is false, and the next iteration
+    raises: `place_nodes` places `block(b("z"))` — `close_node_start` fills `a()` in front — and pushes its open end with
+    `content_match_at(child_count)` over `[b]`.  The real `replace_step` raises ValueError on this input (the recorded
+    finding). -/
+example :
+    let nt (name : String) (isText inlc : Bool) (dfa : Array DfaState) : NodeType :=
+      { name := name, isText := isText, isInline := isText, isLeaf := isText, isAtom := isText,
+        inlineContent := inlc, isolating := false, defining := false, code := false,
+        dfa := dfa, markSet := none, attrs := [] }
+    let S : Schema := { nodes := #[nt "doc" false false #[⟨false, [(3, 1)]⟩, ⟨true, [(3, 1)]⟩],
+                                   nt "a" false true #[⟨true, [(4, 0)]⟩],
+                                   nt "b" false true #[⟨true, [(4, 0)]⟩],
+                                   nt "block" false false #[⟨false, [(1, 1)]⟩, ⟨false, [(2, 2)]⟩, ⟨true, []⟩],
+                                   nt "text" true false #[⟨true, []⟩]],
+                        marks := #[], top := 0, textTy := 4 }
+    let doc := Node.elem 0 [] [] [.elem 3 [] [] [.elem 1 [] [] [.text [120, 121] []], .elem 2 [] [] [.text [122, 119] []]]]
+    let sl : Slice := ⟨[.elem 3 [] [] [.elem 1 [] [] [.text [121] []], .elem 2 [] [] [.text [122] []]]], 2, 2⟩
+    detB S = true ∧ S.fillersOKB = true ∧ S.wrapOKB = true ∧ S.labelsOKB = true ∧ textStableC S = true ∧
+    S.closableB = true ∧ S.checkNode doc = true ∧ S.nodeAttrsOK doc = true ∧ S.isTextblockO (S.tyOf doc) = false ∧
+    sl.stableOk S = true ∧ sl.sitesOk S = true ∧ S.fillableKids sl.content = true ∧
+    S.endChainOk sl.content = false ∧ sl.openPrefixOk S = false ∧
+    (match replaceStep S doc 6 6 sl with | .error .raises => true | _ => false) = true ∧
+    (match doc.resolve 6 with
+     | some rf =>
+       (match (do let s0 ← fitInit S rf sl; fitStep S s0) with
+        | .ok s1 => s1.unplaced == ⟨[.elem 3 [] [] [.elem 2 [] [] [.text [122] []]]], 1, 2⟩ &&
+            !s1.unplaced.sitesOk S &&
+            (match fitStep S s1 with | .error .raises => true | _ => false)
+        | _ => false)
+     | none => false) = true := by decide +kernel
+
+/-- the hypotheses of `fit_no_raise` are satisfiable on a slice that is open on both sides and goes through the Fitter:
+    `<p("x"), p("y")>(1,1)` pasted into the paragraph of `doc(p("ab"))` at position 2 (`doc: "paragraph+"`,
+    `paragraph: "text*"`): all guards hold, the fit is not trivial, and the answer is the step that splits the paragraph -/
+example :
+    let nt (name : String) (isText inl : Bool) (dfa : Array DfaState) : NodeType :=
+      { name := name, isText := isText, isInline := isText, isLeaf := isText, isAtom := isText,
+        inlineContent := inl, isolating := false, defining := false, code := false,
+        dfa := dfa, markSet := none, attrs := [] }
+    let S : Schema := { nodes := #[nt "doc" false false #[⟨false, [(1, 1)]⟩, ⟨true, [(1, 1)]⟩],
+                                   nt "paragraph" false true #[⟨true, [(2, 0)]⟩],
+                                   nt "text" true false #[⟨true, []⟩]],
+                        marks := #[], top := 0, textTy := 2 }
+    let doc := Node.elem 0 [] [] [.elem 1 [] [] [.text [97, 98] []]]
+    let sl : Slice := ⟨[.elem 1 [] [] [.text [120] []], .elem 1 [] [] [.text [121] []]], 1, 1⟩
+    detB S = true ∧ S.fillersOKB = true ∧ S.wrapOKB = true ∧ S.labelsOKB = true ∧ textStableC S = true ∧
+    S.closableB = true ∧ S.checkNode doc = true ∧ S.nodeAttrsOK doc = true ∧ S.isTextblockO (S.tyOf doc) = false ∧
+    sl.openPrefixOk S = true ∧ sl.stableOk S = true ∧ fitsTriviallyO S doc 2 2 sl = some false ∧
+    (match replaceStep S doc 2 2 sl with
+     | .ok (some (.replace 2 2 sl' _)) => sl' == sl
+     | _ => false) = true := by decide +kernel
+
+/-- **the third raise site, exhibited** (stale `open_start`; outside `place_nodes`): schema `doc: "(sect | bq)+"`,
+    `sect: "bq bq"`, `bq: "p+"`, `p: "text*"`; the slice `<bq(p("a")), bq()>(2,1)` — `slice(3, 7)` of the valid document
+    `doc(bq(p("xa")), bq(p("b")))` (replayed on /repo) — inserted at position 6 of `doc(sect(bq(p("y")), bq(p("z"))))`, behind the first quote of
+    the section.  Every hypothesis of `fit_no_raise_while` holds (schema guards, valid document, termination guard,
+    `openPrefixOk`) except the run hypothesis: `stableOk` is false (a `bq` does not fit wherever a `bq` does: the section takes
+    exactly two), `place_nodes` takes `bq(p("a"))` at slice depth 0 and stops in front of the second quote, keeping
+    `open_start = 2`: the unplaced slice `<bq()>(2,1)` is not well-formed (`unplacedWfWhile` false), and the next
+    `find_fittable` walks two levels down the first children of an empty node: the model raises, and so does the real
+    `replace_step` (AttributeError in `find_fittable`, `node.type.spec.get("isolating")`; also upstream). -/
+example :
+    let nt (name : String) (isText inl leaf inlc : Bool) (dfa : Array DfaState) : NodeType :=
+      { name := name, isText := isText, isInline := inl, isLeaf := leaf, isAtom := leaf,
+        inlineContent := inlc, isolating := false, defining := false, code := false,
+        dfa := dfa, markSet := none, attrs := [] }
+    let S : Schema := { nodes := #[nt "doc" false false false false #[⟨false, [(1, 1), (2, 1)]⟩, ⟨true, [(1, 1), (2, 1)]⟩],
+                                   nt "sect" false false false false #[⟨false, [(2, 1)]⟩, ⟨false, [(2, 2)]⟩, ⟨true, []⟩],
+                                   nt "bq" false false false false #[⟨false, [(3, 1)]⟩, ⟨true, [(3, 1)]⟩],
+                                   nt "p" false false false true #[⟨true, [(4, 0)]⟩],
+                                   nt "text" true true true false #[⟨true, []⟩]],
+                        marks := #[], top := 0, textTy := 4 }
+    let doc := Node.elem 0 [] [] [.elem 1 [] [] [.elem 2 [] [] [.elem 3 [] [] [.text [121] []]],
+                                                 .elem 2 [] [] [.elem 3 [] [] [.text [122] []]]]]
+    let sl : Slice := ⟨[.elem 2 [] [] [.elem 3 [] [] [.text [97] []]], .elem 2 [] [] []], 2, 1⟩
+    detB S = true ∧ S.fillersOKB = true ∧ S.wrapOKB = true ∧ S.labelsOKB = true ∧ textStableC S = true ∧
+    S.closableB = true ∧ S.checkNode doc = true ∧ S.nodeAttrsOK doc = true ∧ S.isTextblockO (S.tyOf doc) = false ∧
+    sl.termGuard = true ∧ sl.openPrefixOk S = true ∧ sl.stableOk S = false ∧
+    (match replaceStep S doc 6 6 sl with | .error .raises => true | _ => false) = true ∧
+    (match doc.resolve 6 with
+     | some rf =>
+       (match (do let s0 ← fitInit S rf sl; fitStep S s0) with
+        | .ok s1 => s1.unplaced == ⟨[.elem 2 [] [] []], 2, 1⟩ &&
+            (match fitStep S s1 with | .error .raises => true | _ => false)
+        | _ => false)
+     | none => false) = true := by decide +kernel
+
+/-- … and that unplaced slice is not well-formed, while the request slice is -/
+example :
+    (⟨[.elem 2 [] [] [.elem 3 [] [] [.text [97] []]], .elem 2 [] [] []], 2, 1⟩ : Slice).wf = true ∧
+    (⟨[.elem 2 [] [] []], 2, 1⟩ : Slice).wf = false := by
+  simp [Slice.wf, spineL, spineR]
+
+/-- **`fit_no_raise_emits`** — under the static guards `replace_step` not only returns: what it returns is `None` or a step that is
+    well-formed (`StepWF`; `aroundShape` for a replace-around answer), has a valid payload (for a loosely valid request slice,
+    e.g. one cut from a valid document) and respects the request up to the monitored conjunct of `fitter_respects`.  The run
+    hypothesis `unplacedWfRun` of `fit_emits_wf` / `fit_emits_valid_payload` is discharged (`unplacedWfRun_of_while`:
+    the run returns and the unplaced slice is well-formed all along). -/
+theorem fit_no_raise_emits (S : Schema) (hdet : detB S = true) (hfill : S.fillersOKB = true) (hwrap : S.wrapOKB = true)
+    (hlab : S.labelsOKB = true) (hts : textStableC S = true) (hcl : S.closableB = true)
+    (hleaf : PM.FromDom.leafOkB S = true) (doc : Node) (f t : Nat)
+    (sl : Slice) (hv : C01.Valid S doc) (hattrs : S.nodeAttrsOK doc = true)
+    (htop : S.isTextblockO (S.tyOf doc) = false) (hft : f ≤ t) (ht : t ≤ fsize doc.kids)
+    (hwf : sl.wf = true) (hg : sl.openPrefixOk S = true) (hst : sl.stableOk S = true)
+    (hloose : sl.looseValid S = true) :
+    replaceStep S doc f t sl = .ok none ∨
+    ∃ st, replaceStep S doc f t sl = .ok (some st) ∧ StepWF st = true ∧
+      (∀ F T G1 G2 sl' ins b, st = .replaceAround F T G1 G2 sl' ins b → aroundShape F T G1 G2 sl' ins = true) ∧
+      (∃ sl', st.sliceOf = some sl' ∧ openValid S sl'.openStart sl'.openEnd sl'.content = true) ∧
+      ((∀ F T G1 G2 sl' ins b, st = .replaceAround F T G1 G2 sl' ins b →
+        noText ((sliceToks' sl').drop ins) = true) → respects (ftoks doc.kids) f t sl st = true) := by
+  obtain ⟨r, hr⟩ := fit_no_raise S hdet hfill hwrap hlab hts hcl doc f t sl hv hattrs htop hft ht hwf hg hst
+  cases r with
+  | none => exact .inl hr
+  | some st =>
+    have hrun := unplacedWfRun_of_while S doc f t sl _ hr (unplacedWfWhile_of_stable S doc f t sl hwf hst)
+    obtain ⟨h1, h2⟩ := fit_emits_wf S hdet hfill hwrap hlab doc f t sl hv hattrs hwf hft hrun st hr
+    exact .inr ⟨st, hr, h1, h2,
+      fit_emits_valid_payload S hdet hfill hwrap hlab hleaf hts hcl doc f t sl hloose hv hattrs hrun st hr,
+      fun htail => fitter_respects S doc f t sl st hft hwf hr htail⟩
+
+/-- the slices of the two examples above are well-formed (`Slice.wf`) -/
+example :
+    (⟨[.elem 3 [] [] [.elem 1 [] [] [.text [121] []], .elem 2 [] [] [.text [122] []]]], 2, 2⟩ : Slice).wf = true ∧
+    (⟨[.elem 3 [] [] [.elem 2 [] [] [.text [122] []]]], 1, 2⟩ : Slice).wf = true ∧
+    (⟨[.elem 1 [] [] [.text [120] []], .elem 1 [] [] [.text [121] []]], 1, 1⟩ : Slice).wf = true := by
+  simp [Slice.wf, spineL, spineR]
 
 end PM.C11
